@@ -210,6 +210,34 @@ def run_shard(spec, res):
                         nrec = (len(st['records']), len(bk['records']))
                         res.violation('bigfile-stream-differs-from-bulk', 'file of %d bytes (%s, boundary filler %r at offset %d) read through fs.createReadStream (chunks %r): %d records, error %r; bulk: %d records, error %r' % (
                             len(data), enc, filler, pad, st['emitted'][:4], nrec[0], st['error'], nrec[1], bk['error']), {'pad': pad, 'filler': filler, 'encoding': enc}, finding=None)
+            # many short records: one 64 KiB chunk carries thousands of them (the reader's internal record queue grows in bursts); real file stream,
+            # one single chunk, 64 KiB chunks offered synchronously, small chunks offered one per event-loop turn
+            for nrec in ((5000, 9000) if tier == 'quick' else (4097, 5000, 9000, 20000, 40000)):
+                for shape in ('short', 'mixed'):
+                    lines = ['%d,%s' % (i, 'x' if shape == 'short' or i % 50 else '"multi\nline %d"' % i) for i in range(nrec)]
+                    text = rng.choice(['\n', '\r\n']).join(lines) + '\n'
+                    data = text.encode('utf-8')
+                    out = node.call({'op': 'read_file_stream', 'bytes_hex': data.hex(), 'encoding': 'utf-8', 'delim': ',', 'policy': 'quoted_rfc'})
+                    res.evaluations += 1
+                    res.count('bigfile_runs')
+                    res.count('many_record_runs')
+                    res.distinct_disjoint += 1
+                    st, bk = out['stream'], out['bulk']
+                    key = lambda r: (r['records'], sorted(r['warnings']), r['error'] and r['error']['cls'], r['stuck'])
+                    if key(st) != key(bk) or len(bk['records']) != nrec:
+                        res.violation('bigfile-stream-differs-from-bulk', 'file of %d short records (%d bytes, %s) read through fs.createReadStream: %d records, error %r, stuck %r; bulk: %d records, error %r' % (
+                            nrec, len(data), shape, len(st['records']), st['error'], st['stuck'], len(bk['records']), bk['error']), {'records': nrec, 'shape': shape, 'leg': 'many-records'}, finding=None)
+                    n = len(data)
+                    parts = [[n], [65536] * (n // 65536) + ([n % 65536] if n % 65536 else []), [n // 2, n - n // 2], [10, n - 10], [n - 7, 7]]
+                    for asyncd in (False, True):
+                        c = {'bytes_hex': data.hex(), 'encoding': 'utf-8', 'delim': ',', 'policy': 'quoted_rfc', 'comment_prefix': None, 'has_header': False, 'partitions': parts, 'async_delivery': asyncd}
+                        o2 = node.call({'op': 'stream_vs_bulk', 'cases': [c]})
+                        res.count('many_record_runs', o2['runs'])
+                        for mm in o2['mismatches']:
+                            mm['case'] = dict(mm['case'], bytes_hex=mm['case']['bytes_hex'][:200])
+                            for side in ('stream', 'bulk'):
+                                mm[side] = dict(mm[side], records='%d records' % len(mm[side].get('records') or []))
+                        report(res, o2, 'many-records(%d,%s,%s)' % (nrec, shape, 'async' if asyncd else 'sync'))
             res.sample({'bigfile': '64 KiB +/- 3 bytes with a multi-byte character / CRLF / multi-line record straddling the default chunk boundary; 200 KiB file'})
         elif kind == 'random':
             alpha = ['a', 'b', '"', '"', ',', ',', '\n', '\r', '\r\n', '#', ' ', 'é', '€', '😀', '""', '\ufffd', '\uffff', '\u0800']
@@ -240,9 +268,9 @@ def run_shard(spec, res):
 
 def summarize(tier, seed, m):
     return {
-        'rule': 'every input of 1..%d bytes over {a, quote, comma, LF, CR, #} x all 2^(n-1) chunkings x policies {simple, quoted, quoted_rfc} x comment prefix {none, #} (utf-8 and binary), header on for n <= 4; %d UTF-8 samples with 2-, 3-, 4-byte characters and a leading BOM cut at every byte (all chunkings for samples up to 14 bytes in the quick tier / 18 bytes in the thorough tier; for longer samples every 1- and 2-cut chunking (thorough: also 3-cut and 20000 random chunkings) and byte-by-byte delivery); truncated / invalid sequences (both modes must reject); two stream iterators alive at the same time (the first chunk of the first cut at every byte offset, the second read completely in between), each compared with the bulk reading of its own content; files around the 64 KiB default chunk size through fs.createReadStream; random longer inputs. distinct_nontrivial = (input, configuration) pairs containing a line break, a quote or a multi-byte character.' % (MAXLEN[tier], len(utf8_samples())),
+        'rule': 'every input of 1..%d bytes over {a, quote, comma, LF, CR, #} x all 2^(n-1) chunkings x policies {simple, quoted, quoted_rfc} x comment prefix {none, #} (utf-8 and binary), header on for n <= 4; %d UTF-8 samples with 2-, 3-, 4-byte characters and a leading BOM cut at every byte (all chunkings for samples up to 14 bytes in the quick tier / 18 bytes in the thorough tier; for longer samples every 1- and 2-cut chunking (thorough: also 3-cut and 20000 random chunkings) and byte-by-byte delivery); truncated / invalid sequences (both modes must reject); two stream iterators alive at the same time (the first chunk of the first cut at every byte offset, the second read completely in between), each compared with the bulk reading of its own content; files around the 64 KiB default chunk size through fs.createReadStream; files of 5000-40000 short records (thousands per chunk: the record queue grows in bursts) through fs.createReadStream, as one chunk, as 64 KiB chunks and with odd first / last chunks, delivered synchronously and one chunk per event-loop turn; random longer inputs. distinct_nontrivial = (input, configuration) pairs containing a line break, a quote or a multi-byte character.' % (MAXLEN[tier], len(utf8_samples())),
         'exhaustive': True,
-        'required': ['overlap_runs', 'stream_runs', 'bulk_runs', 'utf8_sample_runs', 'bigfile_runs', 'faithful_delivery_traces'],
+        'required': ['many_record_runs', 'overlap_runs', 'stream_runs', 'bulk_runs', 'utf8_sample_runs', 'bigfile_runs', 'faithful_delivery_traces'],
         'assumptions': ['the bulk reader is the reference for what the file contains (C18 ties it to the Python reader)',
                         'a reader is reported stuck when its promise is still pending 200 event-loop turns after the stream ended (logical time)'],
     }
